@@ -728,6 +728,17 @@ func variadicElems(v ssa.Value) ([]ssa.Value, bool) {
 	if c, ok := v.(*ssa.Const); ok && c.Value == nil {
 		return nil, true // nil slice: no keys
 	}
+	// lists = append(lists, more...): the elements of both, in order
+	if call, ok := v.(*ssa.Call); ok {
+		if bi, isBuiltin := call.Common().Value.(*ssa.Builtin); isBuiltin && bi.Name() == "append" && len(call.Common().Args) == 2 {
+			a, okA := variadicElems(call.Common().Args[0])
+			b, okB := variadicElems(call.Common().Args[1])
+			if okA && okB {
+				return append(append([]ssa.Value{}, a...), b...), true
+			}
+		}
+		return nil, false
+	}
 	sl, ok := v.(*ssa.Slice)
 	if !ok {
 		return nil, false
